@@ -1,6 +1,7 @@
 package props
 
 import (
+	"os"
 	"fmt"
 	"sort"
 	"strings"
@@ -34,6 +35,14 @@ var c06Reps = map[val.Kind][]val.V{
 	val.KSS:   {val.SS("a", "b"), val.SS("b")},
 	val.KNS:   {val.NS("1", "2"), val.NS("2")},
 	val.KBS:   {val.BS("a", "b"), val.BS("b")},
+}
+
+func strVals(texts []string, mk func(string) val.V) []val.V {
+	out := []val.V{}
+	for _, t := range texts {
+		out = append(out, mk(t))
+	}
+	return out
 }
 
 var c06Kinds = append([]val.Kind{val.KAbsent}, val.AllKinds...)
@@ -88,6 +97,26 @@ func c06Matrix() []c06Case {
 						}
 					}
 				}
+			}
+		}
+	}
+	// ordering of strings and binaries: every pair of a pool of order traps (upper / lower case, prefixes, NUL, digits
+	// that order differently as numbers, the last characters of the Basic Multilingual Plane next to characters
+	// beyond it - UTF-8 byte order, which is DynamoDB's, and UTF-16 code-unit order disagree about those - and, for
+	// binaries, bytes above 0x7f, which are large, not negative) under the four ordering operators and BETWEEN
+	ordS := []string{"", "a", "A", "ab", "a\x00", "B", "é", "z", "~", "10", "9", "\ue000", "\uff71", "\uffff", "\U00010000", "\U0001F44D", "\U0010FFFF", "a\uffff", "a\U0001F44D"}
+	ordB := []string{"", "\x00", "\x7f", "\x80", "\xff", "a", "a\x00", "\xf0\x9f", "\xef\xbf\xbf", "\x7f\xff"}
+	for ti, pool := range [][]val.V{strVals(ordS, val.Str), strVals(ordB, val.Bin)} {
+		for i, lv := range pool {
+			for j, rv := range pool {
+				cmp := []string{"<", "<=", ">", ">="}[(i+j)%4]
+				if (i+j+ti)%2 == 0 {
+					out = append(out, c06Case{Cond: &refmodel.Cond{Op: "cmp", Cmp: cmp, Args: []refmodel.Operand{pathL, valR}}, Item: mkItem(lv, val.Absent()), Values: val.Item{":r": rv}, Tag: "order-pv"})
+				} else {
+					out = append(out, c06Case{Cond: &refmodel.Cond{Op: "cmp", Cmp: cmp, Args: []refmodel.Operand{pathL, pathR}}, Item: mkItem(lv, rv), Values: val.Item{}, Tag: "order-pp"})
+				}
+				hv := pool[(i+j*7+3)%len(pool)]
+				out = append(out, c06Case{Cond: &refmodel.Cond{Op: "between", Args: []refmodel.Operand{pathL, valR, valX}}, Item: mkItem(lv, val.Absent()), Values: val.Item{":r": rv, ":x": hv}, Tag: "order-between"})
 			}
 		}
 	}
@@ -214,11 +243,19 @@ func c06Matrix() []c06Case {
 	return append(out, c06ScaleMatrix()...)
 }
 
-var c06HostileNames = []string{"a.b", "app.version", "m.x", "l[0]", "a[1]", "a b", "a-b", "1a", "a:b", "a#b", "size", "SET", "é", "a.b.c", ".", "#h", ":x", "a.", ".a", "a\\.b"}
+var c06HostileNames = []string{"a.b", "app.version", "m.x", "l[0]", "a[1]", "a b", "a-b", "1a", "a:b", "a#b", "size", "SET", "é", "a.b.c", ".", "#h", ":x", "a.", ".a", "a\\.b",
+	// names that begin or end with white space ("Order ID " as exported by a spreadsheet): other attributes than their trimmed spelling
+	" a", "a ", " Order ID ", "\ta", "a\n", " "}
 
 // c06Decoy builds what a path reading of a hostile name would address ("a.b" -> a:{b:v}, "l[0]" -> l:[v]).
 func c06Decoy(name string, v val.V) val.Item {
 	out := val.Item{}
+	if t := strings.TrimSpace(name); t != name {
+		if t != "" {
+			out[t] = v // the attribute a trimmed reading of the name would address
+		}
+		return out
+	}
 	if i := strings.Index(name, "["); i > 0 {
 		out[name[:i]] = val.List(v, v, v)
 		return out
@@ -374,8 +411,28 @@ func reverseSets(v val.V) val.V {
 }
 
 // matchDirect calls interpreter.Language.Match under recover and classifies the outcome.
+// directDebug makes matchDirect / updateDirect run the interpreter in its debug mode (Language.Debug, what
+// Client.ActivateDebug switches on); see inDebugMode
+var directDebug bool
+
+// inDebugMode runs f with the interpreter's debug mode on. The mode prints to the standard output, which is
+// pointed at the null device meanwhile (workers of these checks run one case at a time).
+func inDebugMode(f func()) {
+	null, err := os.OpenFile(os.DevNull, os.O_WRONLY, 0)
+	if err != nil {
+		return
+	}
+	saved := os.Stdout
+	os.Stdout, directDebug = null, true
+	defer func() {
+		os.Stdout, directDebug = saved, false
+		null.Close()
+	}()
+	f()
+}
+
 func matchDirect(expr string, names map[string]string, item, values val.Item) (refmodel.Res, string, string, val.Item) {
-	li := &interpreter.Language{}
+	li := &interpreter.Language{Debug: directDebug}
 	ti := adapt.ItemToTypes(item)
 	if ti == nil {
 		ti = adapt.ItemToTypes(val.Item{})
